@@ -250,16 +250,16 @@ func buildLMRaw(w *world, b baseSpec) payload {
 	comp := []string{"", "", "gzip", "lz4"}[b.A/2%4]
 	switch comp {
 	case "":
-		p.outer = layer{data: raw}
+		p.outer = layer{data: raw, rec: 8}
 	case "gzip":
 		q = append(q, "compression=gzip")
 		p.outer = layer{data: gz(raw)}
-		p.inner = &layer{data: raw}
+		p.inner = &layer{data: raw, rec: 8}
 		p.rewrap = gz
 	case "lz4":
 		q = append(q, "compression=lz4")
 		p.outer = layer{data: lz(raw), anyCutOK: true} // an LZ4 block carries no length: a prefix may decode
-		p.inner = &layer{data: raw}
+		p.inner = &layer{data: raw, rec: 8}
 		p.rewrap = lz
 	}
 	p.url = fmt.Sprintf("node/%s/lm/raw/0_1_2/%s/%s", w.root, p3(sx, lmB, lmB), p3(ox, oy, oz))
